@@ -245,13 +245,37 @@ def replace_cursor_rule(rep, mod, fname, name, sublen_atom, rule='R-REPLACE-STEP
     ok = sl == ({sub_len: 1}, 0)
     rep.inst(rule, name, 'needle-length-is-sublen', ok, mm.where(), None if ok else 'needle length is %r' % (sl,))
     # haystack length = end - cursor where end = input + inlen (any atoms), i.e. coefficient of cursor is -1
-    ok = ln[0].get(('i', cur.id)) == -1 and ln[1] == 0
-    rep.inst(rule, name, 'search-extends-to-end-of-input', ok, mm.where(),
-             None if ok else 'haystack length is %r' % (ln,))
     nxt = None
+    first = None
     for (bb, v) in cur.incoming:
         if f.bmap[bb] in L['blocks']:
             nxt = lin_of(f, v)
+        else:
+            first = lin_of(f, v)
+    ok = ln[0].get(('i', cur.id)) == -1 and ln[1] == 0
+    detail = None if ok else 'haystack length is %r' % (ln,)
+    if not ok and len(ln[0]) == 1 and ln[1] == 0:
+        # a remaining-length counter carried beside the cursor: `left` is a header phi of the same loop and
+        # cursor + left (the end of the input) is the same on entry of every iteration
+        (k, c), = ln[0].items()
+        left = f.insts[k[1]] if k[0] == 'i' else None
+        if c == 1 and left is not None and left.op == 'phi' and left.block is L['header']:
+            lnxt = None
+            for (bb, v) in left.incoming:
+                if f.bmap[bb] in L['blocks']:
+                    lnxt = lin_of(f, v)
+            if lnxt is not None and nxt is not None:
+                t = dict(nxt[0])
+                for kk, cc in lnxt[0].items():
+                    t[kk] = t.get(kk, 0) + cc
+                total = ({kk: cc for kk, cc in t.items() if cc}, nxt[1] + lnxt[1])
+                ok = total == ({('i', cur.id): 1, ('i', left.id): 1}, 0)
+                detail = None if ok else ('the remaining length carried beside the cursor does not keep cursor + remaining '
+                                          'constant: after a match it is %r' % (total,))
+    if not ok and detail is not None and detail.startswith('haystack length') and ln[0].get(('i', cur.id)) is None:
+        raise AnalysisBroken('%s: the haystack length %r is neither end - cursor nor a counter carried beside the cursor'
+                             % (fname, ln))
+    rep.inst(rule, name, 'search-extends-to-end-of-input', ok, mm.where(), detail)
     want = ({('i', mm.id): 1, sub_len: 1}, 0)
     ok = nxt == want
     rep.inst(rule, name, 'cursor-continues-behind-match', ok, where,
